@@ -394,13 +394,15 @@ def repo_test_inputs():
     return sorted(set(qs))
 
 
-def stage_texts(run, texts, observe=False, trace=False, name="texts", with_json=False):
+def stage_texts(run, texts, observe=False, trace=False, name="texts", with_json=False, df=None):
     inp = os.path.join(run.work, name + "_in.ndjson")
     with open(inp, "w") as f:
         for q in texts:
             f.write(json.dumps(q) + "\n")
     res = os.path.join(run.work, name + ".ndjson")
     a = ["parse-texts", "-in", inp, "-out", res]
+    if df is not None:
+        a += ["-df", df]
     if observe:
         a.append("-observe")
     if with_json:
